@@ -248,11 +248,14 @@ def execute_metric(job):
     u = 1.0 if q["rel"] == "full" else [1.0, 0.25][(n + seed) % 2]
     clock = geom.Clock(1.4e9, 0.125) if c["fmt"] == "euroc" else [geom.Clock(0, 1), geom.Clock(0, 0.125), geom.Clock(1.5e9, 0.125)][(n + seed) % 3]
     d = tempfile.mkdtemp(prefix="pm_", dir=core.workdir())
+    # every other TUM / bag case: the estimate's stamps are a quarter tick later, --t_max_diff is exactly a quarter tick
+    eclock = geom.Clock(clock.t0 + 0.25 * clock.dt, clock.dt) if c["fmt"] == "tum" and (n // 5) % 2 else clock
     try:
         kitti = c["fmt"] == "kitti"
         if c["fmt"] == "bag":
             clock = [geom.Clock(1.5e9, 0.125), geom.Clock(4096, 0.5)][(n + seed) % 2]
-            write_bag(os.path.join(d, "in.bag"), [("/gt", c["ref"]), ("/est", c["est"])], u, clock)
+            eclock = geom.Clock(clock.t0 + 0.25 * clock.dt, clock.dt) if (n // 5) % 2 else clock
+            write_bag(os.path.join(d, "in.bag"), [("/gt", c["ref"], clock), ("/est", c["est"], eclock)], u, clock)
             argv = ["bag", "in.bag", "/gt", "/est"]
         elif kitti:
             write_input(os.path.join(d, "gt.txt"), c["ref"], "kitti", u, clock)
@@ -265,7 +268,7 @@ def execute_metric(job):
             write_input(os.path.join(d, "gt.txt"), c["ref"], "tum", u, clock)
             argv = ["tum", "gt.txt", "est.txt"]
         if not kitti and c["fmt"] != "bag":
-            write_input(os.path.join(d, "est.txt"), c["est"], "tum", u, clock)
+            write_input(os.path.join(d, "est.txt"), c["est"], "tum", u, eclock)
         argv += ["-r", RELARG[q["rel"]]]
         if q["down"]:
             argv += ["--downsample", str(q["down"])]
@@ -341,7 +344,7 @@ def execute_metric(job):
         if kitti:
             stamps = [-99999 if k is None else c["ref"]["stamps"][k] for k in idx]
         for t in ([] if kitti else ts):
-            k = clock.a(float(t))
+            k = eclock.a(float(t))
             if k is None and c["fmt"] == "euroc":
                 qk = (float(t) - clock.t0) / clock.dt
                 k = int(round(qk)) if abs(qk - round(qk)) * clock.dt <= 1e-6 else None
